@@ -55,6 +55,13 @@ Proof. revert b. induction l as [|c l IH]; intros b; [reflexivity|]. cbn [last] 
 Lemma last_cons_default {A} (a : A) l d : last (a :: l) d = last l a.
 Proof. destruct l as [|b l]; [reflexivity|]. cbn [last]. apply last_nonempty_default. Qed.
 
+Lemma skipn_add {A} (x y : nat) (l : list A) : skipn x (skipn y l) = skipn (x + y) l.
+Proof.
+  revert l. induction y as [|y IH]; intros l; [rewrite Nat.add_0_r; reflexivity|].
+  destruct l as [|a l]; [rewrite !skipn_nil; reflexivity|].
+  rewrite Nat.add_succ_r. cbn [skipn]. apply IH.
+Qed.
+
 Lemma kind_eqb_eq a b : kind_eqb a b = true <-> a = b.
 Proof. destruct a, b; cbn; split; intros H; try reflexivity; discriminate. Qed.
 
@@ -375,6 +382,59 @@ Section SetsProofs.
     - subst p. cbn [fst snd]. rewrite N.sub_diag. reflexivity.
     - pose proof (number_fst_bounds _ _ _ H) as B. specialize (IH _ H).
       replace (N.to_nat (fst p - off)) with (S (N.to_nat (fst p - (off + 1)))) by lia. exact IH.
+  Qed.
+
+  Lemma matching_idxs_app c a b off :
+    matching_idxs matches c (a ++ b) off =
+    matching_idxs matches c a off ++ matching_idxs matches c b (off + N.of_nat (length a)).
+  Proof.
+    revert off. induction a as [|m a IH]; intros off.
+    - cbn. rewrite N.add_0_r. reflexivity.
+    - cbn [app matching_idxs length]. rewrite IH.
+      replace (off + 1 + N.of_nat (length a)) with (off + N.of_nat (S (length a))) by lia.
+      destruct (match_filters c m); reflexivity.
+  Qed.
+
+  (* the server loop: whatever the chunk size (>= 1), after enough ticks every message has been filtered once *)
+  Lemma stream_rounds_spec c all chunk : filters_active c = true -> 1 <= chunk ->
+    forall fuel last acc,
+      (N.to_nat last <= length all)%nat -> (length all - N.to_nat last <= fuel)%nat ->
+      stream_rounds matches fuel c all chunk acc last =
+      (acc ++ matching_idxs matches c (skipn (N.to_nat last) all) last, N.of_nat (length all)).
+  Proof.
+    intros Ha Hc. induction fuel as [|f IH]; intros last acc Hl Hf.
+    - assert (E : N.to_nat last = length all) by lia. cbn [stream_rounds]. rewrite E, skipn_all.
+      cbn [matching_idxs]. rewrite app_nil_r. f_equal. lia.
+    - cbn [stream_rounds].
+      assert (Em : N.min last (N.of_nat (length all)) = last) by lia. rewrite Em.
+      destruct (skipn (N.to_nat last) all) as [|m r] eqn:Es.
+      + cbn [matching_idxs]. rewrite app_nil_r. f_equal.
+        assert (L : length (skipn (N.to_nat last) all) = 0%nat) by (rewrite Es; reflexivity).
+        rewrite skipn_length in L. lia.
+      + assert (Ln : length (m :: r) = (length all - N.to_nat last)%nat) by (rewrite <- Es; apply skipn_length).
+        unfold process_stream_new. rewrite Ha. cbn [fst snd].
+        set (new := m :: r) in *.
+        set (k := N.min (N.of_nat (length new)) chunk).
+        assert (Hpos : (1 <= length new)%nat) by (unfold new; cbn [length]; lia).
+        assert (Hk1 : 1 <= k) by (unfold k; lia).
+        assert (Hk2 : (N.to_nat k <= length new)%nat) by (unfold k; lia).
+        rewrite IH by lia.
+        rewrite <- app_assoc. f_equal. f_equal.
+        replace (N.to_nat (last + k)) with (N.to_nat k + N.to_nat last)%nat by lia.
+        rewrite <- skipn_add, Es.
+        rewrite <- (firstn_skipn (N.to_nat k) new) at 3.
+        rewrite matching_idxs_app, firstn_length_le by exact Hk2.
+        rewrite N2Nat.id. reflexivity.
+  Qed.
+
+  Lemma stream_rounds_inactive c all chunk fuel :
+    filters_active c = false -> all <> [] ->
+    stream_rounds matches (S fuel) c all chunk [] 0 = ([], N.of_nat (length all)).
+  Proof.
+    intros Ha Hn. destruct all as [|m r]; [congruence|].
+    cbn [stream_rounds]. rewrite N.min_0_l. cbn [N.to_nat skipn]. unfold process_stream_new. rewrite Ha. cbn [fst snd app].
+    destruct fuel as [|f]; [reflexivity|]. cbn [stream_rounds].
+    rewrite N.add_0_l, N.min_id, Nat2N.id, skipn_all. reflexivity.
   Qed.
 
   (* ------------------------------------------------------------ export *)
